@@ -23,6 +23,7 @@ func addMore(c *vrt.Ctx, ts *[]task) {
 	if want("index") {
 		addIndex(c, ts)
 		addPanics(c, ts)
+		addGrid(c, ts)
 	}
 	if want("scalar") {
 		addScalar(c, ts)
